@@ -471,3 +471,190 @@ Qed.
 Theorem replace_re_all_spec : merge_ok -> inclusion_sound -> forall m s r t m' x,
   dwf m -> owned m r -> goodw s -> str_replace_re_all m s r t = Some (m', x) -> ReplaceReAll (L r) s t x.
 Proof. intros HM Hsub m s r t m' x Dm Or Hg H. apply (replace_re_all_spec_ext HM Hsub m s r t m' x Dm Or Hg H). Qed.
+
+(* ------------------------------------------------------------------------------------------ *)
+(** * 7. Panics: None only if some char_derivative call returns None *)
+
+(* a character derivative of an owned term fails in some well-formed extension of m
+   (DerivProofs: this can only be a u32 overflow of a loop bound inside a constructor) *)
+Definition deriv_fails (m : mgr) : Prop :=
+  exists m1 p c, dwf m1 /\ ext m m1 /\ owned m1 p /\ good c /\ char_derivative m1 p c = None.
+
+Lemma deriv_fails_meaning m : deriv_fails m <->
+  exists m1 p c, dwf m1 /\ ext m m1 /\ owned m1 p /\ good c /\ char_derivative m1 p c = None.
+Proof. reflexivity. Qed.
+
+Lemma deriv_fails_ext m m1 : ext m m1 -> deriv_fails m1 -> deriv_fails m.
+Proof.
+  intros X (m2 & p & c & D & X2 & O & Hc & H). exists m2, p, c.
+  split; [exact D|]. split; [eapply ext_trans; eauto|]. auto.
+Qed.
+
+Lemma re_extend_none : merge_ok -> inclusion_sound -> forall rest m p j,
+  dwf m -> owned m p -> goodw rest -> re_extend m p rest j = None -> deriv_fails m.
+Proof.
+  intros HM Hsub. induction rest as [|c t IH]; intros m p j Dm Op Hg H; cbn [re_extend] in H; [discriminate|].
+  apply goodw_cons in Hg as [Hc Hgt].
+  destruct (char_derivative m p c) as [[m1 p1]|] eqn:D1; cbn [bind] in H.
+  - destruct (char_derivative_quotient HM Hsub m p c m1 p1 Dm Op Hc D1) as (D1' & X1 & Op1 & _).
+    destruct (rnul p1); [discriminate|]. destruct (is_empty_node p1); [discriminate|].
+    apply (deriv_fails_ext m m1 X1). apply (IH m1 p1 (S j) D1' Op1 Hgt H).
+  - exists m, p, c. split; [exact Dm|]. split; [apply ext_refl|]. auto.
+Qed.
+
+Lemma re_search_from_none : merge_ok -> inclusion_sound -> forall suf m r i,
+  dwf m -> owned m r -> goodw suf -> re_search_from m r suf i = None -> deriv_fails m.
+Proof.
+  intros HM Hsub. induction suf as [|c t IH]; intros m r i Dm Or Hg H; cbn [re_search_from] in H; [discriminate|].
+  destruct (re_extend m r (c :: t) i) as [[m1 e]|] eqn:E1; cbn [bind] in H.
+  - destruct (re_extend_spec HM Hsub (c :: t) m r i m1 e Dm Or Hg E1) as (D1 & X1 & _).
+    destruct e as [j|]; [discriminate|]. apply goodw_cons in Hg as [_ Hgt].
+    apply (deriv_fails_ext m m1 X1). apply (IH m1 r (S i) D1 (ext_owned m m1 r X1 Or) Hgt H).
+  - apply (re_extend_none HM Hsub (c :: t) m r i Dm Or Hg E1).
+Qed.
+
+Theorem naive_re_search_total : merge_ok -> inclusion_sound -> forall m r s k allow_empty,
+  dwf m -> owned m r -> goodw s -> naive_re_search m r s k allow_empty = None -> deriv_fails m.
+Proof.
+  intros HM Hsub m r s k ae Dm Or Hg H. unfold naive_re_search in H.
+  destruct (ae && rnul r); [discriminate|].
+  apply (re_search_from_none HM Hsub (skipn k s) m r k Dm Or (goodw_skipn k s Hg) H).
+Qed.
+
+Theorem str_replace_re_total : merge_ok -> inclusion_sound -> forall m s r t,
+  dwf m -> owned m r -> goodw s -> str_replace_re m s r t = None -> deriv_fails m.
+Proof.
+  intros HM Hsub m s r t Dm Or Hg H. unfold str_replace_re in H.
+  destruct (naive_re_search m r s 0 true) as [[m1 res]|] eqn:S1; cbn [bind] in H.
+  - destruct res; discriminate.
+  - apply (naive_re_search_total HM Hsub m r s 0 true Dm Or Hg S1).
+Qed.
+
+(* the out-of-fuel branch is unreachable *)
+Lemma replace_re_all_go_none : merge_ok -> inclusion_sound -> forall s r t, goodw s ->
+  forall fuel m i x, dwf m -> owned m r -> i <= length s -> length s - i < fuel ->
+  replace_re_all_go fuel m s r t i x = None -> deriv_fails m.
+Proof.
+  intros HM Hsub s r t Hg. induction fuel as [|f IH]; intros m i x Dm Or Hi Hf H; [lia|].
+  cbn [replace_re_all_go] in H.
+  destruct (naive_re_search m r s i false) as [[m1 res]|] eqn:S1; cbn [bind] in H.
+  - destruct (naive_re_search_spec HM Hsub m r s i false m1 res Dm Or Hg Hi S1) as (D1 & X1 & HF & _).
+    destruct res as [j k|]; [|discriminate].
+    destruct (HF j k eq_refl) as (Hij & (Hjk & Hk & _ & Hne) & _). specialize (Hne eq_refl).
+    apply (deriv_fails_ext m m1 X1).
+    apply (IH m1 k _ D1 (ext_owned m m1 r X1 Or) Hk ltac:(lia) H).
+  - apply (naive_re_search_total HM Hsub m r s i false Dm Or Hg S1).
+Qed.
+
+Theorem str_replace_re_all_total : merge_ok -> inclusion_sound -> forall m s r t,
+  dwf m -> owned m r -> goodw s -> str_replace_re_all m s r t = None -> deriv_fails m.
+Proof.
+  intros HM Hsub m s r t Dm Or Hg H. unfold str_replace_re_all in H.
+  apply (replace_re_all_go_none HM Hsub s r t Hg (S (length s)) m 0 [] Dm Or (Nat.le_0_l _) ltac:(lia) H).
+Qed.
+
+(* ------------------------------------------------------------------------------------------ *)
+(** * 8. Program level: the results are the SMT-LIB values for the language [denote p] *)
+
+Theorem re_search_denotation : merge_ok -> inclusion_sound -> forall p m m1 r s k allow_empty m2 res,
+  dwf m -> prog_ok p = true -> run p m = Some (m1, r) -> goodw s -> k <= length s ->
+  naive_re_search m1 r s k allow_empty = Some (m2, res) ->
+  (forall i j, res = Found i j -> LeftmostShortest (denote p) allow_empty s k i j) /\
+  (res = NotFound -> NoMatchFrom (denote p) allow_empty s k).
+Proof.
+  intros HM Hsub p m m1 r s k ae m2 res Dm Hok R Hg Hk H.
+  destruct (run_correct Hsub p m m1 r (proj1 Dm) Hok R) as (_ & _ & _ & HL).
+  destruct (run_dwf p m m1 r Dm Hok R) as (D1 & _ & Or).
+  destruct (naive_re_search_spec HM Hsub m1 r s k ae m2 res D1 Or Hg Hk H) as (_ & _ & HF & HN).
+  split.
+  - intros i j E. apply (LeftmostShortest_lang_eq (L r)); auto.
+  - intros E. apply (NoMatchFrom_lang_eq (L r)); auto.
+Qed.
+
+Theorem replace_re_denotation : merge_ok -> inclusion_sound -> forall p m m1 r s t m2 x,
+  dwf m -> prog_ok p = true -> run p m = Some (m1, r) -> goodw s ->
+  str_replace_re m1 s r t = Some (m2, x) -> ReplaceRe (denote p) s t x.
+Proof.
+  intros HM Hsub p m m1 r s t m2 x Dm Hok R Hg H.
+  destruct (run_correct Hsub p m m1 r (proj1 Dm) Hok R) as (_ & _ & _ & HL).
+  destruct (run_dwf p m m1 r Dm Hok R) as (D1 & _ & Or).
+  apply (ReplaceRe_lang_eq (L r)); auto. apply (replace_re_spec HM Hsub m1 s r t m2 x D1 Or Hg H).
+Qed.
+
+Theorem replace_re_all_denotation : merge_ok -> inclusion_sound -> forall p m m1 r s t m2 x,
+  dwf m -> prog_ok p = true -> run p m = Some (m1, r) -> goodw s ->
+  str_replace_re_all m1 s r t = Some (m2, x) -> ReplaceReAll (denote p) s t x.
+Proof.
+  intros HM Hsub p m m1 r s t m2 x Dm Hok R Hg H.
+  destruct (run_correct Hsub p m m1 r (proj1 Dm) Hok R) as (_ & _ & _ & HL).
+  destruct (run_dwf p m m1 r Dm Hok R) as (D1 & _ & Or).
+  apply (ReplaceReAll_lang_eq (L r)); auto. apply (replace_re_all_spec HM Hsub m1 s r t m2 x D1 Or Hg H).
+Qed.
+
+(* equality with the model's answer is a complete test oracle: the SMT-LIB value is unique *)
+Theorem replace_re_complete : merge_ok -> inclusion_sound -> forall p m m1 r s t m2 x,
+  dwf m -> prog_ok p = true -> run p m = Some (m1, r) -> goodw s ->
+  str_replace_re m1 s r t = Some (m2, x) -> forall y, ReplaceRe (denote p) s t y <-> y = x.
+Proof.
+  intros HM Hsub p m m1 r s t m2 x Dm Hok R Hg H y.
+  pose proof (replace_re_denotation HM Hsub p m m1 r s t m2 x Dm Hok R Hg H) as Hx.
+  split; [intros Hy; apply (ReplaceRe_functional _ _ _ _ _ Hy Hx) | intros ->; exact Hx].
+Qed.
+
+Theorem replace_re_all_complete : merge_ok -> inclusion_sound -> forall p m m1 r s t m2 x,
+  dwf m -> prog_ok p = true -> run p m = Some (m1, r) -> goodw s ->
+  str_replace_re_all m1 s r t = Some (m2, x) -> forall y, ReplaceReAll (denote p) s t y <-> y = x.
+Proof.
+  intros HM Hsub p m m1 r s t m2 x Dm Hok R Hg H y.
+  pose proof (replace_re_all_denotation HM Hsub p m m1 r s t m2 x Dm Hok R Hg H) as Hx.
+  split; [intros Hy; apply (ReplaceReAll_functional _ _ _ _ Hy _ Hx) | intros ->; exact Hx].
+Qed.
+
+(* ------------------------------------------------------------------------------------------ *)
+(** * 9. The model run from the fresh manager is a certified evaluator of the SMT-LIB functions
+      (specification glue, used for the examples of Properties/C10.v and usable as test oracle) *)
+
+Definition eval_re_search (p : prog) (s : word) (k : nat) (allow_empty : bool) : option sr :=
+  match run p new_mgr with Some (m1, r) => option_map snd (naive_re_search m1 r s k allow_empty) | None => None end.
+Definition eval_replace_re (p : prog) (s t : word) : option word :=
+  match run p new_mgr with Some (m1, r) => option_map snd (str_replace_re m1 s r t) | None => None end.
+Definition eval_replace_re_all (p : prog) (s t : word) : option word :=
+  match run p new_mgr with Some (m1, r) => option_map snd (str_replace_re_all m1 s r t) | None => None end.
+
+Theorem eval_re_search_sound : merge_ok -> inclusion_sound -> forall p s k allow_empty res,
+  prog_ok p = true -> goodwb s = true -> k <= length s -> eval_re_search p s k allow_empty = Some res ->
+  match res with
+  | Found i j => LeftmostShortest (denote p) allow_empty s k i j
+  | NotFound => NoMatchFrom (denote p) allow_empty s k
+  end.
+Proof.
+  intros HM Hsub p s k ae res Hok Hg Hk H. apply goodwb_iff in Hg. unfold eval_re_search in H.
+  destruct (run p new_mgr) as [[m1 r]|] eqn:R; [|discriminate].
+  destruct (naive_re_search m1 r s k ae) as [[m2 res']|] eqn:E; [|discriminate]. cbn in H. injection H as ->.
+  destruct (re_search_denotation HM Hsub p new_mgr m1 r s k ae m2 res new_mgr_dwf Hok R Hg Hk E) as [HF HN].
+  destruct res as [i j|]; [apply HF | apply HN]; reflexivity.
+Qed.
+
+Theorem eval_replace_re_sound : merge_ok -> inclusion_sound -> forall p s t x,
+  prog_ok p = true -> goodwb s = true -> eval_replace_re p s t = Some x -> ReplaceRe (denote p) s t x.
+Proof.
+  intros HM Hsub p s t x Hok Hg H. apply goodwb_iff in Hg. unfold eval_replace_re in H.
+  destruct (run p new_mgr) as [[m1 r]|] eqn:R; [|discriminate].
+  destruct (str_replace_re m1 s r t) as [[m2 x']|] eqn:E; [|discriminate]. cbn in H. injection H as ->.
+  apply (replace_re_denotation HM Hsub p new_mgr m1 r s t m2 x new_mgr_dwf Hok R Hg E).
+Qed.
+
+Theorem eval_replace_re_all_sound : merge_ok -> inclusion_sound -> forall p s t x,
+  prog_ok p = true -> goodwb s = true -> eval_replace_re_all p s t = Some x -> ReplaceReAll (denote p) s t x.
+Proof.
+  intros HM Hsub p s t x Hok Hg H. apply goodwb_iff in Hg. unfold eval_replace_re_all in H.
+  destruct (run p new_mgr) as [[m1 r]|] eqn:R; [|discriminate].
+  destruct (str_replace_re_all m1 s r t) as [[m2 x']|] eqn:E; [|discriminate]. cbn in H. injection H as ->.
+  apply (replace_re_all_denotation HM Hsub p new_mgr m1 r s t m2 x new_mgr_dwf Hok R Hg E).
+Qed.
+
+Print Assumptions naive_re_search_spec.
+Print Assumptions replace_re_denotation.
+Print Assumptions replace_re_all_denotation.
+Print Assumptions replace_re_all_complete.
+Print Assumptions str_replace_re_all_total.
